@@ -290,7 +290,7 @@ PROPS.update({
                "implementation: no double drop, and nothing alive once vector, subscribers, adapters and diffs are gone. The memory safety of the unsafe blocks themselves is not a theorem."),
         technique="Lean 4 proof (partition invariant of an ownership ledger) + instrumented differential runs (exact for eyeball, invariants for the vector crates)",
         design_ref="DESIGN.md §6 C20"),
-    "C04": dict(obs_prop(["EyeballVerif.Props.C04"],
+    "C04": dict(obs_prop(["EyeballVerif.Props.C04", "EyeballVerif.Props.C04Lin"],
         "c04_mutual_exclusion (guards exclude, from WInv, every reachable state), c04_value_frame (only the store segment of set / a set_if_not_eq that differs / update changes the value, to exactly the value that call writes), "
         "c04_store_records_prev (set and set_if_not_eq record the replaced value; an equal set_if_not_eq changes nothing and returns None), c04_set_chain (along every run the "
         "stores form a chain from the initial to the final value), c04_reads_current, c04_next_now_current, c04_observed_monotone",
